@@ -1,9 +1,13 @@
-import GrmVerif.Lemmas.Newline4
+import GrmVerif.Lemmas.Newline5
+import GrmVerif.Lemmas.Diagnostics4
 /-!
 # C19 — byte offsets map to the right lines and columns; line extraction never fails
 
 Property theorems only (helper lemmas live in `GrmVerif/Lemmas/Newline*.lean`).
-The model is `GrmVerif/Model/Newline.lean`, a transcription of `cfgrammar/src/lib/newlinecache.rs`.
+The model is `GrmVerif/Model/Newline.lean`, a transcription of `cfgrammar/src/lib/newlinecache.rs`;
+the error pretty-printer (`lrpar/src/lib/diagnostics.rs`: `file_location_msg`,
+`prefixed_underline_span_with_text`) is `GrmVerif/Model/Diagnostics.lean`, with the display width of
+a string (`UnicodeWidthStr::width`) a parameter `sw`.
 -/
 namespace GrmVerif.C19
 open GrmVerif.Newline
@@ -46,101 +50,8 @@ is (1 + newlines in `a`, `colOf cur post`); no panic (`some (some _)`). -/
 theorem line_col_spec (a cur post : List Char)
     (ha : a = [] ∨ a.getLast? = some '\n') (hcur : '\n' ∉ cur) :
     byteToLineCol (ofText (a ++ cur ++ post)) (a ++ cur ++ post) (byteLen (a ++ cur))
-      = some (some (1 + a.count '\n', colOf cur post)) := by
-  have hlen := feedLen_ofText (a ++ cur ++ post)
-  have hb : byteLen (a ++ cur) ≤ byteLen (a ++ cur ++ post) := by
-    rw [byteLen_append (a ++ cur) post]; omega
-  have hline := byteToLineNum_ofText (a ++ cur ++ post) (byteLen (a ++ cur)) hb
-  -- the line count: newlines before the offset are the newlines of `a`
-  have hcnt : nlBefore 0 (a ++ cur ++ post) (byteLen (a ++ cur)) = a.count '\n' := by
-    rw [← countP_nlsFrom, List.append_assoc, nlsFrom_append, nlsFrom_append, List.countP_append,
-      List.countP_append, nlsFrom_no_nl _ cur hcur]
-    have h1 : (nlsFrom 0 a).countP (· ≤ byteLen (a ++ cur)) = (nlsFrom 0 a).length := by
-      rw [List.countP_eq_length]; intro y hy
-      have := nlsFrom_le 0 a y hy
-      rw [byteLen_append]; simp; omega
-    have h2 : (nlsFrom (0 + byteLen a + byteLen cur) post).countP (· ≤ byteLen (a ++ cur)) = 0 := by
-      rw [List.countP_eq_zero]; intro y hy
-      have := nlsFrom_gt _ post y hy
-      rw [byteLen_append]; simp; omega
-    rw [h1, h2]
-    simp [nlsFrom_length]
-  have hlast : lastNl (ofText (a ++ cur ++ post)) ≥ byteLen a := by
-    have hm : byteLen a ∈ (ofText (a ++ cur ++ post)).newlines := by
-      have := last_nls_of_ends_nl a ha
-      simp only [ofText, List.append_assoc, nlsFrom_append]
-      have hmem : ∀ (l : List Nat), l.getLast?.getD 0 = byteLen a → l ≠ [] → byteLen a ∈ l := by
-        intro l hl hne
-        cases h : l.getLast? with
-        | none => exact absurd (List.getLast?_eq_none_iff.mp h) hne
-        | some v =>
-          rw [h] at hl; simp at hl; subst hl
-          exact List.mem_of_getLast? h
-      have := hmem (0 :: nlsFrom 0 a) this (by simp)
-      simp only [List.mem_cons, List.mem_append] at this ⊢
-      rcases this with h | h
-      · left; exact h
-      · right; left; exact h
-    exact sorted_le_last _ (ofText_sorted _) _ hm
-  unfold byteToLineCol
-  rw [hlen, hline, hcnt]
-  simp only [show ¬ byteLen (a ++ cur) > byteLen (a ++ cur ++ post) by omega, decide_false,
-    bne_self_eq_false, Bool.or_self, Bool.false_eq_true, ↓reduceIte]
-  cases post with
-  | nil =>
-    -- offset = end of text: the last line start is `byteLen a`
-    simp only [List.append_nil, ↓reduceIte]
-    have hl : lastNl (ofText (a ++ cur)) = byteLen a := by
-      simp only [lastNl, ofText, nlsFrom_append, nlsFrom_no_nl _ cur hcur, List.append_nil]
-      exact last_nls_of_ends_nl a ha
-    have hn : (ofText (a ++ cur)).newlines.length = 1 + a.count '\n' := by
-      have := hcnt
-      simp only [List.append_nil] at this
-      rw [← this, ← countP_nlsFrom]
-      simp only [ofText, List.length_cons, nlsFrom_append, nlsFrom_no_nl _ cur hcur, List.append_nil]
-      rw [(List.countP_eq_length).mpr]
-      · omega
-      · intro y hy; have := nlsFrom_le 0 a y hy; rw [byteLen_append]; simp; omega
-    rw [hl, dropBytes_append, hn]
-    simp [colOf]
-  | cons p ps =>
-    have hp := Char.utf8Size_pos p
-    have hne : ¬ byteLen (a ++ cur) = byteLen (a ++ cur ++ p :: ps) := by
-      rw [byteLen_append (a ++ cur) (p :: ps)]; simp only [byteLen]; omega
-    simp only [hne, ↓reduceIte]
-    -- the start of line `1 + count` is `byteLen a`
-    have hstart : lineNumToByte (ofText (a ++ cur ++ p :: ps)) (1 + a.count '\n') = some (byteLen a) := by
-      have h3 : (nlsFrom 0 a).length = a.count '\n' := nlsFrom_length 0 a
-      have hl := last_nls_of_ends_nl a ha
-      unfold lineNumToByte
-      simp only [ofText, List.append_assoc, nlsFrom_append, nlsFrom_no_nl _ cur hcur, List.nil_append,
-        List.length_cons, List.length_append, h3]
-      have : ¬ (1 + a.count '\n' > a.count '\n' + (nlsFrom (0 + byteLen a + byteLen cur) (p :: ps)).length + 1
-          || (1 + a.count '\n' == 0)) = true := by
-        simp; omega
-      simp only [this, Bool.false_eq_true, ↓reduceIte, Nat.add_sub_cancel_left]
-      rw [← List.cons_append, List.getElem?_append_left (by simp [h3])]
-      rw [List.getLast?_eq_getElem?] at hl
-      simp only [List.length_cons, Nat.add_sub_cancel, h3] at hl
-      cases hg : (0 :: nlsFrom 0 a)[a.count '\n']? with
-      | none => simp [h3] at hg
-      | some v => rw [hg] at hl; simp at hl; rw [hl]
-    rw [hstart]
-    simp only
-    rw [List.append_assoc, dropBytes_append]
-    simp only [byteLen_append, Nat.add_sub_cancel_left]
-    have := colLoop_prefix cur p ps 0 0 none hcur (Or.inl rfl)
-    simp only [Nat.zero_add] at this
-    rw [this]
-    simp only [colOf, List.head?_cons, Option.some.injEq]
-    cases cur with
-    | nil => simp
-    | cons c cs =>
-      simp only [List.cons_ne_nil, ↓reduceIte]
-      by_cases h1 : (c :: cs).getLast? = some '\r'
-      · simp only [h1, ↓reduceIte]
-        by_cases h2 : p = '\n' <;> simp [h2]
-      · simp [h1]
+      = some (some (1 + a.count '\n', colOf cur post)) :=
+  byteToLineCol_decomp a cur post ha hcur
 
 /-- **Lines of a span: total and exact.** For every span `start ≤ stop` (within the text or not —
 no further hypothesis is needed) the query does not panic and returns the start of the line
@@ -163,6 +74,195 @@ theorem span_lines_reachable (chunks : List (List Char)) (start stop : Nat) (hle
               lineEndOf (ofText chunks.flatten).newlines (byteLen chunks.flatten) stop) := by
   rw [feed_chunking]; exact span_lines_total_and_spec _ _ _ hle
 
+/-! ## Error pretty-printing reports these positions
+
+A text with a span `start ≤ stop` on character boundaries is a `Diag.Split` `d`
+(`Lemmas/Diagnostics.lean`): `d.text = a ++ pre ++ c0 ++ "\n" ++ c1 ++ … ++ "\n" ++ cm ++ suf ++ z`
+with `a` empty or ending in a newline, `pre`, the `ci` and `suf` newline-free, `z` empty or starting
+with a newline; `d.start = |a ++ pre|`, `d.stop = d.start + |c0 "\n" … cm|` (bytes). `split_covers_all`
+shows that every such text and span is one. The rows the property prescribes are `d.rows`
+(`Diag.specRows`), rendered by `Diag.renderRows`. -/
+open GrmVerif.Diag
+
+/-- **Header.** For every text and every character boundary in it (written `a ++ cur | post` as in
+`line_col_spec`), every path and message: `file_location_msg(msg, Some(span))` for a span starting at
+that boundary does not panic and is `msg at path:L:C` with `L`, `C` exactly the line and column of
+`line_col_spec`. -/
+theorem pretty_header_is_line_col (a cur post path msg : List Char)
+    (ha : a = [] ∨ a.getLast? = some '\n') (hcur : '\n' ∉ cur) :
+    fileLocationMsg (a ++ cur ++ post) path msg (some (byteLen (a ++ cur)))
+      = some (msg ++ " at ".toList ++ path ++ ':' :: natStr (1 + a.count '\n')
+                ++ ':' :: natStr (colOf cur post)) := by
+  simp only [fileLocationMsg, nlc_eq_ofText, byteToLineCol_decomp a cur post ha hcur]
+  simp
+
+/-- without a span the header is `msg in path` -/
+theorem pretty_header_no_span (src path msg : List Char) :
+    fileLocationMsg src path msg none = some (msg ++ " in ".toList ++ path) := rfl
+
+/-- **Every span on character boundaries is covered.** For every text `s` and offsets
+`start ≤ stop` that are character boundaries of `s` (`isBoundary`: `0`, `|s|` and the offset of every
+character) there is a well-formed split `d` with `d.text = s`, `d.start = start`, `d.stop = stop`;
+so the theorems below, stated for well-formed splits, hold for all such texts and spans. -/
+theorem split_covers_all (s : List Char) (start stop : Nat) (hle : start ≤ stop)
+    (h1 : isBoundary s start = true) (h2 : isBoundary s stop = true) :
+    ∃ d : Split, d.WF ∧ d.text = s ∧ d.start = start ∧ d.stop = stop :=
+  split_exists s start stop hle h1 h2
+
+/-- **The printed text, exactly.** For every string-width function `sw`, every well-formed split
+(= every text and span on character boundaries), every prefix of at most 3 bytes (the code asserts
+this; `format_spanned` passes `""` or `"..."`), every message and underline character:
+`prefixed_underline_span_with_text` does not panic and returns the prescribed rows `d.rows`, each
+rendered as `N| text`, newline, the prefix, blanks, marks; rows separated by newlines; a blank and the
+message after the last row. -/
+theorem pretty_print_spec (sw : List Char → Nat) (d : Split) (hd : d.WF)
+    (pfx msg : List Char) (uc : Char) (hp : byteLen pfx ≤ 3) :
+    prefixedUnderline sw d.text pfx d.start d.stop msg uc
+      = some (renderRows sw pfx msg uc d.rows) :=
+  prefixedUnderline_spec sw d hd pfx msg uc hp
+
+/-- The same, spelled out: the output is the row strings joined by `"\n"`, followed by `" " ++ msg`. -/
+theorem pretty_output_layout (sw : List Char → Nat) (d : Split) (hd : d.WF)
+    (pfx msg : List Char) (uc : Char) (hp : byteLen pfx ≤ 3) :
+    prefixedUnderline sw d.text pfx d.start d.stop msg uc
+      = some (['\n'].intercalate (d.rows.map (rowStr sw pfx uc)) ++ ' ' :: msg) := by
+  rw [prefixedUnderline_spec sw d hd pfx msg uc hp,
+    renderRows_layout sw pfx msg uc d.rows (specRows_first_ne_nil _ _ _ _ _)]
+
+/-- **The rows are the lines of the span.** For every well-formed split: (1) `span_line_bytes` of the
+formatter's cache returns `[|a|, |a| + |body|)`, which is the pair of `span_lines_total_and_spec`;
+(2) slicing the text there does not panic and gives `d.body` (the touched lines); (3) the texts of
+the printed rows are exactly `lines()` of that slice (one empty line if the slice is empty: the
+repaired behaviour), i.e. each touched line without its `"\n"`/`"\r\n"`, a final empty line omitted
+unless it is the only one; (4) row `k` carries the number `first line + k`, where the first line is
+the line `line_col_spec` reports for the span's start. -/
+theorem pretty_lines_are_span_lines (d : Split) (hd : d.WF) :
+    spanLineBytes (nlc d.text) d.start d.stop = some (byteLen d.a, byteLen d.a + byteLen d.body)
+    ∧ (lineStartOf (ofText d.text).newlines d.start,
+        lineEndOf (ofText d.text).newlines (byteLen d.text) d.stop)
+        = (byteLen d.a, byteLen d.a + byteLen d.body)
+    ∧ sliceBytes d.text (byteLen d.a) (byteLen d.a + byteLen d.body) = some d.body
+    ∧ d.rows.map (·.text) = linesOf d.body
+    ∧ (∀ k (hk : k < d.rows.length), (d.rows[k]).num = d.firstLine + k)
+    ∧ byteToLineCol (ofText d.text) d.text d.start
+        = some (some (d.firstLine, colOf d.pre (d.cov ++ (d.suf ++ d.z)))) := by
+  have h1 := spanLineBytes_split d hd
+  have hle : d.start ≤ d.stop := by simp [Split.stop]
+  refine ⟨by rw [nlc_eq_ofText]; exact h1, ?_, sliceBytes_mid d.a d.body d.z _ rfl, ?_, ?_, ?_⟩
+  · have h2 := span_lines_total_and_spec d.text d.start d.stop hle
+    rw [h1] at h2
+    exact (Option.some.inj h2).symm
+  · exact (linesOf_spec d.firstLine d.pre d.c0 d.cs d.suf hd.hpre hd.hc0 hd.hcs hd.hsuf).symm
+  · intro k hk
+    exact (specRows_get true d.firstLine d.pre d.c0 d.cs d.suf k hk).1
+  · have := byteToLineCol_decomp' d.a d.pre (d.cov ++ (d.suf ++ d.z)) hd.ha hd.hpre
+    simpa [Split.text, Split.body, Split.start, Split.firstLine] using this
+
+/-- **Where the underline is.** For every string-width function, every well-formed split, every
+prefix of at most 3 bytes and every printed row `k`: the row string is `N| text`, a newline, the
+prefix, `nb` blanks and `max 1 (sw cov)` marks, where prefix and blanks together are as long (in
+bytes = cells for the ASCII gutter) as the gutter `N| ` plus the width of the text before the
+underline. That text is `d.pre` (the part of the line before the span) on the first row and empty on
+later rows; the underlined text `cov` is the `k`-th newline-separated piece of the span, without its
+`'\r'` if a further piece follows. -/
+theorem pretty_underline_columns (sw : List Char → Nat) (d : Split) (pfx : List Char) (uc : Char)
+    (hp : byteLen pfx ≤ 3) (k : Nat) (hk : k < d.rows.length) :
+    ∃ nb, rowStr sw pfx uc (d.rows[k])
+        = natStr (d.rows[k]).num ++ "| ".toList ++ (d.rows[k]).text ++ '\n' :: pfx
+            ++ List.replicate nb ' ' ++ List.replicate (max 1 (sw (d.rows[k]).cov)) uc
+      ∧ byteLen pfx + nb = byteLen (natStr (d.rows[k]).num ++ "| ".toList) + sw (d.rows[k]).pre
+      ∧ (d.rows[k]).pre = (if k = 0 then d.pre else [])
+      ∧ (d.rows[k]).cov = (if k < d.cs.length then dropCR (piece d.c0 d.cs k) else piece d.c0 d.cs k) := by
+  have hg := specRows_get true d.firstLine d.pre d.c0 d.cs d.suf k hk
+  refine ⟨sw (d.rows[k]).pre + (byteLen (natStr (d.rows[k]).num) + 2 - byteLen pfx), ?_, ?_, hg.2.1, hg.2.2⟩
+  · simp [rowStr, rowText, Nat.max_comm]
+  · have h2 : byteLen "| ".toList = 2 := by decide
+    have h3 := (byteLen_natStr (d.rows[k]).num)
+    rw [byteLen_append, h2]; omega
+
+/-- The same for a per-character width `w : Char → Nat` (string width = sum of the characters'
+widths, which is what `unicode-width` computes except on `"\r\n"`, emoji sequences and ligatures):
+prefix plus blanks are as long as the gutter plus `Σ w` over the text before the underline, and there
+are `max 1 (Σ w over the underlined text)` marks. -/
+theorem pretty_underline_columns_sum (w : Char → Nat) (d : Split) (pfx : List Char) (uc : Char)
+    (hp : byteLen pfx ≤ 3) (k : Nat) (hk : k < d.rows.length) :
+    ∃ nb, rowStr (sumWidth w) pfx uc (d.rows[k])
+        = natStr (d.rows[k]).num ++ "| ".toList ++ (d.rows[k]).text ++ '\n' :: pfx
+            ++ List.replicate nb ' ' ++ List.replicate (max 1 (((d.rows[k]).cov.map w).sum)) uc
+      ∧ byteLen pfx + nb
+          = byteLen (natStr (d.rows[k]).num ++ "| ".toList) + ((d.rows[k]).pre.map w).sum := by
+  obtain ⟨nb, h1, h2, _, _⟩ := pretty_underline_columns (sumWidth w) d pfx uc hp k hk
+  exact ⟨nb, h1, h2⟩
+
+/-- **No panic**, in byte offsets: for every text, every string-width function, every span
+`start ≤ stop` whose ends are character boundaries of the text, every prefix of at most 3 bytes:
+the formatter returns a string, and that string ends with a blank and the message. (Before the two
+repairs of this round this failed for an empty span on an empty line — nothing at all was printed —
+and for a non-empty span starting between `'\r'` and `'\n'` — a panic.) -/
+theorem pretty_no_panic (sw : List Char → Nat) (s pfx msg : List Char) (uc : Char)
+    (start stop : Nat) (hle : start ≤ stop)
+    (h1 : isBoundary s start = true) (h2 : isBoundary s stop = true) (hp : byteLen pfx ≤ 3) :
+    ∃ out, prefixedUnderline sw s pfx start stop msg uc = some (out ++ ' ' :: msg) := by
+  obtain ⟨d, hd, rfl, rfl, rfl⟩ := split_exists s start stop hle h1 h2
+  exact ⟨_, pretty_output_layout sw d hd pfx msg uc hp⟩
+
+/-- The hypothesis on the prefix is necessary: with a prefix of more than 3 bytes the formatter
+panics (`assert!`) on every text and span. -/
+theorem pretty_long_prefix_panics (sw : List Char → Nat) (d : Split) (hd : d.WF)
+    (pfx msg : List Char) (uc : Char) (hp : 3 < byteLen pfx) :
+    prefixedUnderline sw d.text pfx d.start d.stop msg uc = none :=
+  prefixedUnderline_long_prefix sw d hd pfx msg uc hp
+
+/-- **An empty span on an empty line** (in particular at the end of a text that ends in a newline:
+`a` = the whole text): one row `N| ` with the line's number, the gutter's worth of blanks (and
+`sw ""` more), `max 1 (sw "")` marks, the message. -/
+theorem pretty_empty_line (sw : List Char → Nat) (a z pfx msg : List Char) (uc : Char)
+    (ha : a = [] ∨ a.getLast? = some '\n') (hz : z = [] ∨ z.head? = some '\n')
+    (hp : byteLen pfx ≤ 3) :
+    prefixedUnderline sw (a ++ z) pfx (byteLen a) (byteLen a) msg uc
+      = some (rowText sw pfx uc (1 + a.count '\n') [] [] [] ++ ' ' :: msg) := by
+  have := prefixedUnderline_spec sw ⟨a, [], [], [], [], z⟩
+    ⟨ha, by simp, by simp, by simp, by simp, hz⟩ pfx msg uc hp
+  simpa [Split.text, Split.body, Split.cov, Split.start, Split.stop, Split.rows, Split.firstLine,
+    joinNl, specRows, renderRows, byteLen] using this
+
+/-- **A span that starts between `'\r'` and `'\n'`** and goes on: the first row shows the line
+without its terminator, nothing of it is underlined (so one mark is drawn), and the text before the
+mark includes the `'\r'`. -/
+theorem pretty_span_from_inside_crlf (d : Split) (p : List Char) (c1 : List Char)
+    (cs : List (List Char)) (h1 : d.pre = p ++ ['\r']) (h2 : d.c0 = []) (h3 : d.cs = c1 :: cs) :
+    d.rows.head? = some ⟨d.firstLine, p, p ++ ['\r'], []⟩ := by
+  simp [Split.rows, h1, h2, h3, specRows, dropCR_append_cr, dropCR_nil]
+
+/-- **In characters** (`sw` = number of characters, i.e. every character one cell wide): on every row
+the marks number `max 1 (characters of the underlined text)`, and prefix plus blanks are as long as
+the gutter plus `col - 1`, where `col` is the column `line_col_spec` gives for the first underlined
+position — the span's start on the first row (`colOf d.pre …`, the header's column), column 1 on
+later rows. On the first row this needs the span not to start between a `'\r'` and its `'\n'` (there
+the column of the `'\n'` is that of the `'\r'`, and the mark is one cell further right). -/
+theorem pretty_underline_columns_chars (d : Split) (pfx : List Char) (uc : Char)
+    (hp : byteLen pfx ≤ 3) (k : Nat) (hk : k < d.rows.length)
+    (hcr : k = 0 → ¬ ((d.cov ++ (d.suf ++ d.z)).head? = some '\n' ∧ d.pre.getLast? = some '\r')) :
+    ∃ nb, rowStr (sumWidth fun _ => 1) pfx uc (d.rows[k])
+        = natStr (d.rows[k]).num ++ "| ".toList ++ (d.rows[k]).text ++ '\n' :: pfx
+            ++ List.replicate nb ' ' ++ List.replicate (max 1 (d.rows[k]).cov.length) uc
+      ∧ byteLen pfx + nb = (natStr (d.rows[k]).num ++ "| ".toList).length
+          + ((if k = 0 then colOf d.pre (d.cov ++ (d.suf ++ d.z)) else 1) - 1) := by
+  have hsw : ∀ l : List Char, sumWidth (fun _ => 1) l = l.length := by
+    intro l; induction l with
+    | nil => rfl
+    | cons c cs ih => simp only [sumWidth, List.map_cons, List.sum_cons, List.length_cons] at ih ⊢; omega
+  obtain ⟨nb, h1, h2, h3, _⟩ := pretty_underline_columns (sumWidth fun _ => 1) d pfx uc hp k hk
+  refine ⟨nb, by rw [h1, hsw], ?_⟩
+  rw [h2, hsw, h3, byteLen_append, (byteLen_natStr _).1]
+  have h2 : byteLen "| ".toList = 2 := by decide
+  rw [h2, List.length_append]
+  by_cases hk0 : k = 0
+  · have := hcr hk0
+    simp only [hk0, ↓reduceIte, colOf, this]
+    simp
+  · simp [hk0]
+
 /-! ### non-vacuity and regression witnesses (tests, labelled as tests) -/
 
 /-- the design-time witness of the defect repaired by the `fix:` commit: `"ab\ncd\nef"`, 3..6 -/
@@ -170,5 +270,23 @@ example : spanLineBytes (ofText "ab\ncd\nef".toList) 3 6 = some (3, 8) := by dec
 example : byteToLineCol (ofText "a\r\nb".toList) "a\r\nb".toList 2 = some (some (1, 2)) := by decide
 example : ([] : List Char) = [] ∨ ([] : List Char).getLast? = some '\n' := Or.inl rfl
 example : (['a', 'b', '\n'].foldl (fun c ch => feed c [ch]) Cache.new) = ofText ['a', 'b', '\n'] := by decide
+
+
+/-- the unit test `underline_multiline_span_test` of diagnostics.rs, on the model -/
+example : underlineSpan (sumWidth fun _ => 1) "\naaaaaabbb\nbbb\nbbbb\n".toList 7 19 "Test message".toList '-'
+    = some "2| aaaaaabbb\n         ---\n3| bbb\n   ---\n4| bbbb\n   ---- Test message".toList := by decide
+/-- `span_prefix_2`: the gutter is one cell wider from line 10 on, the prefix takes its place -/
+example : prefixedUnderline (sumWidth fun _ => 1) "\n\n\n\n\n\n\n\n\n\n\naaaaaabbb\nbbb\nbbbb\n".toList "...".toList 17 20
+    "Test message".toList '^' = some "12| aaaaaabbb\n...       ^^^ Test message".toList := by decide
+/-- the witness of the first repair of this round: `"%start A\n"`, the empty span at the end -/
+example : underlineSpan (sumWidth fun _ => 1) "%start A\n".toList 9 9 "File ends prematurely".toList '^'
+    = some "2| \n   ^ File ends prematurely".toList := by decide
+/-- the witness of the second repair: `"a\r\nb"`, 2..4 -/
+example : underlineSpan (fun l => l.length) "a\r\nb".toList 2 4 "Here".toList '^'
+    = some "1| a\n     ^\n2| b\n   ^ Here".toList := by decide
+/-- a split satisfying `WF`, non-trivially (two pieces, CR LF, text before and after) -/
+example : (⟨"x\n".toList, "ab".toList, "c\r".toList, ["d".toList], "e".toList, "\nf".toList⟩ : Split).WF :=
+  ⟨by decide, by decide, by decide, by decide, by decide, by decide⟩
+example : isBoundary "aéb".toList 3 = true ∧ isBoundary "aéb".toList 2 = false := by decide
 
 end GrmVerif.C19
